@@ -1503,7 +1503,12 @@ func (self *LockManagerData) GetValueOffset() int {
 		return 6
 	}
 	if self.data[5]&protocol.LOCK_DATA_FLAG_CONTAINS_PROPERTY != 0 {
-		return (int(self.data[6]) | (int(self.data[7]) << 8)) + 8
+		valueOffset := (int(self.data[6]) | (int(self.data[7]) << 8)) + 8
+		if valueOffset > len(self.data) {
+			// the property header announces more than the frame carries: the value is empty
+			return len(self.data)
+		}
+		return valueOffset
 	}
 	return 6
 }
